@@ -1,16 +1,23 @@
 """Developer entry: run one bounded module alone, evidence into a scratch dir.
    .venv/bin/python -m runtime.run_one c01_roundtrip C01 [quick|thorough]"""
-import importlib, os, sys, tempfile, json, time
-d = tempfile.mkdtemp(prefix="verif-ev-")
-os.environ["VERIF_EVIDENCE_DIR"] = d
-from vlib.common import Ctx
-mod, prop = sys.argv[1], sys.argv[2]
-tier = sys.argv[3] if len(sys.argv) > 3 else "quick"
-ctx = Ctx(prop, tier, int(os.environ.get("VERIF_SEED", "0")))
-t = time.time()
-importlib.import_module("runtime." + mod).run_bounded(ctx)
-rc = ctx.finish("exploration", "developer run of one bounded module")
-ev = json.load(open(os.path.join(d, prop + ".json")))
-print(json.dumps({k: ev["coverage"].get(k) for k in ("evaluations", "distinct_nontrivial", "bounded_groups")}, indent=1))
-print("violations:", len(ctx.violations), "known:", [k[0] for k in ctx.known_hits], "rc:", rc, "wall: %.1fs" % (time.time() - t))
-import shutil; shutil.rmtree(d, ignore_errors=True)
+
+
+def main():
+    import importlib, os, sys, tempfile, json, time
+    d = tempfile.mkdtemp(prefix="verif-ev-")
+    os.environ["VERIF_EVIDENCE_DIR"] = d
+    from vlib.common import Ctx
+    mod, prop = sys.argv[1], sys.argv[2]
+    tier = sys.argv[3] if len(sys.argv) > 3 else "quick"
+    ctx = Ctx(prop, tier, int(os.environ.get("VERIF_SEED", "0")))
+    t = time.time()
+    importlib.import_module("runtime." + mod).run_bounded(ctx)
+    rc = ctx.finish("exploration", "developer run of one bounded module")
+    ev = json.load(open(os.path.join(d, prop + ".json")))
+    print(json.dumps({k: ev["coverage"].get(k) for k in ("evaluations", "distinct_nontrivial", "bounded_groups")}, indent=1))
+    print("violations:", len(ctx.violations), "known:", [k[0] for k in ctx.known_hits], "rc:", rc, "wall: %.1fs" % (time.time() - t))
+    import shutil; shutil.rmtree(d, ignore_errors=True)
+
+
+if __name__ == "__main__":
+    main()
